@@ -100,15 +100,17 @@ def run(ctx):
             except Exception as e:  # noqa
                 ctx.violation("exception", f"{name} raised {type(e).__name__}: {e}", case, key=f"C14:{cname}_grad:exception")
                 break
+            flat = cname == "hellinger" and len(x) == 1      # one-dimensional Hellinger: identically 0, differentiable, derivative 0
             if cname in ("euclidean", "seuclidean", "mahalanobis", "minkowski", "wminkowski", "hellinger", "hyperboloid",
-                         "haversine") and not float(d) >= 1e-2:
+                         "haversine") and not float(d) >= 1e-2 and not flat:
                 ctx.skip(f"rejected: distance below 1e-2, the kink of a root-type distance ({cname})")
                 continue
             g = np.asarray(g, dtype=np.float64)[:len(x)]
             if not np.all(np.isfinite(g)) and np.isfinite(float(d)):
                 done += 1
                 ctx.violation("gradient", f"{name}: non-finite gradient {g.tolist()} at a point where the returned distance ({float(d):.6g}) "
-                                          f"is finite and differentiable", case, key=f"C14:{cname}_grad")
+                                          f"is finite and differentiable", case,
+                              key="C14:hellinger_grad-zero-distance" if flat else f"C14:{cname}_grad")
                 continue
             g1 = fd_grad(f, x0, y0, args, 1e-4)
             g2 = fd_grad(f, x0, y0, args, 3e-4)
